@@ -266,14 +266,6 @@ func C19(c *core.Ctx) error {
 				cases = append(cases, cs)
 			}
 		}
-		// deprecated key next to a mapped key at the same level
-		for _, d := range core.SortedKeys(c19deprecated) {
-			for k := range keys {
-				cs := base()
-				cs.places = []c19place{{key: -1, dep: d, level: 1}, {key: k, level: 1}}
-				cases = append(cases, cs)
-			}
-		}
 	} else {
 		// quick: same key at two levels (inheritance is not migrate's job: both must stay)
 		for k := range keys {
@@ -288,6 +280,18 @@ func C19(c *core.Ctx) error {
 			for l2 := 0; l2 < 4; l2++ {
 				cs := base()
 				cs.places = []c19place{{key: 4, level: l1}, {key: 5, level: l2}}
+				cases = append(cases, cs)
+			}
+		}
+	}
+
+	// deprecated key next to a mapped key at the same level, at every level (a dropped
+	// key must not take a mapped neighbour with it)
+	for _, d := range core.SortedKeys(c19deprecated) {
+		for k := range keys {
+			for l := 0; l < 4; l++ {
+				cs := base()
+				cs.places = []c19place{{key: -1, dep: d, level: l}, {key: k, level: l}}
 				cases = append(cases, cs)
 			}
 		}
@@ -391,9 +395,9 @@ func C19(c *core.Ctx) error {
 	c.Ev.Set("distinct_outcomes", len(outcomes))
 	c.Ev.Set("exhaustive", !c.Expired())
 	c.Ev.Set("cases", len(cases))
-	bound := "dev<=1 over (14 mapped keys x 4 levels), each level full, all full, 31 deprecated keys x 4 levels, 34 package/interface name spellings, null bodies, same key at adjacent levels, include/exclude level pairs"
+	bound := "dev<=1 over (14 mapped keys x 4 levels), each level full, all full, 31 deprecated keys x 4 levels, 34 package/interface name spellings, null bodies, same key at adjacent levels, include/exclude level pairs, every (deprecated key, mapped key) pair at the same level x 4 levels"
 	if !core.Quick(c.Tier) {
-		bound = "dev<=2: all pairs of (mapped key, level) placements (1540), deprecated x mapped at package level, plus the quick set"
+		bound = "dev<=2: all pairs of (mapped key, level) placements (1540), plus the quick set"
 	}
 	c.Ev.Set("bound", bound)
 	c.Ev.Set("rule", "v2 configuration trees generated from (key, level) placement sets with pairwise distinct marker values; each is run through `mockery migrate`, the output parsed and compared with the reference mapping (A7) applied to the same tree, then loaded with `mockery showconfig`; non-trivial = at least one placement")
